@@ -184,5 +184,90 @@ pub open spec fn rcf_penalty(q: SendRec) -> int {
         }),
 //@ end
 
+// ---------------- withdraw_balance (C14, C01, C03): transaction closure ----------------
+//@ item actors/miner/src/types.rs WithdrawBalanceParams
+//@ item actors/miner/src/types.rs WithdrawBalanceReturn
+//@ fn actors/miner/src/beneficiary.rs BeneficiaryTerm::available
+    ensures
+        // quota left while the term is active, nothing once it has expired
+        r@ == (if self.expiration > cur { if self.quota@ - self.used_quota@ > 0 { self.quota@ - self.used_quota@ } else { 0 } } else { 0 }),
+//@ end
+pub open spec fn imin(a: int, b: int) -> int { if a <= b { a } else { b } }
+/// what a withdrawal may pay: "at most the balance minus vesting funds, pre-commit deposits, initial pledge and fee debt",
+/// capped by the request and — for a beneficiary other than the owner — by the unexpired remaining quota
+pub open spec fn wd_amount(st_after_vesting: State, balance: int, requested: int, info: MinerInfo, epoch: int) -> int {
+    let avail = unlocked(st_after_vesting, balance) - st_after_vesting.fee_debt@;
+    let a = imin(avail, requested);
+    if info.beneficiary != info.owner { imin(a, info.beneficiary_term.quota@ - info.beneficiary_term.used_quota@) } else { a }
+}
+//@ fn actors/miner/src/lib.rs Actor::withdraw_balance closure=0 as=wd_tx0 params="state: &mut State, rt: &mut Rt, params: &WithdrawBalanceParams" retty="Result<(MinerInfo, TokenAmount, TokenAmount, TokenAmount, State), ActorError>" ret=res
+    requires
+        st_wf(*old(state)), old(rt).validated@.is_none(),
+    ensures
+        *final(rt) == (Rt { validated: final(rt).validated, ..*old(rt) }),
+        /*C11*/ res.is_ok() ==> final(rt).validated@.is_some(),
+        res.is_ok() ==> info_of(*old(state)).is_some() && ({
+            let i0 = info_of(*old(state))->Some_0;
+            let (info, amount, newly_vested, fee, st_copy) = res->Ok_0;
+            let vested = vf_sum_before(old(state).vesting_funds@, old(rt).epoch as int);
+            &&& st_wf(*final(state)) && st_copy == *final(state)
+            // "only at the request of owner or beneficiary"
+            &&& /*C11*/ (old(rt).msg.caller == i0.owner || old(rt).msg.caller == i0.beneficiary)
+            // "never while early terminations are unprocessed"
+            &&& old(state).early_terminations@ =~= vstd::set::Set::<u64>::empty()
+            // vesting: exactly what has vested by now unlocks; nothing else moves the locked total
+            &&& newly_vested@ == vested && final(state).locked_funds@ == old(state).locked_funds@ - vested
+            &&& final(state).pre_commit_deposits == old(state).pre_commit_deposits && final(state).initial_pledge == old(state).initial_pledge
+            // "any fee debt is repaid in full as part of the same call"
+            &&& fee@ == old(state).fee_debt@ && final(state).fee_debt@ == 0
+            // the amount: min(available, requested [, remaining quota]) and never negative
+            &&& amount@ == wd_amount(State { locked_funds: final(state).locked_funds, ..*old(state) }, old(rt).balance@, params.amount_requested@, i0, old(rt).epoch as int)
+            &&& amount@ >= 0
+            // after paying `amount` and burning `fee` the miner still covers vesting funds, deposits and pledge (C01)
+            &&& amount@ + fee@ <= unlocked(*final(state), old(rt).balance@)
+            // "within the beneficiary's quota and expiry"
+            &&& (i0.beneficiary != i0.owner ==> i0.beneficiary_term.expiration > old(rt).epoch && i0.beneficiary_term.quota@ - i0.beneficiary_term.used_quota@ > 0
+                    && amount@ <= i0.beneficiary_term.quota@ - i0.beneficiary_term.used_quota@)
+            // the quota actually used is recorded
+            &&& info.owner == i0.owner && info.beneficiary == i0.beneficiary
+            &&& info.beneficiary_term.used_quota@ == i0.beneficiary_term.used_quota@ + (if i0.beneficiary != i0.owner { amount@ } else { 0 })
+            &&& (i0.beneficiary != i0.owner && amount@ > 0 ==> info_of(*final(state)) == Some(info))
+            &&& (!(i0.beneficiary != i0.owner && amount@ > 0) ==> final(state).info == old(state).info)
+        }),
+//@ end
+
+// ---------------- withdraw_balance: whole method ----------------
+//@ fn actors/miner/src/lib.rs Actor::withdraw_balance free tx0="State;wd_tx0;&mut __vx_st, rt, &params"
+    requires
+        !old(rt).in_tx@, old(rt).sends@.len() == 0, old(rt).tx_log@.len() == 0, old(rt).validated@.is_none(),
+        st_wf(rt_state::<State>(old(rt).state_id@)),
+    ensures
+        /*C11*/ r.is_ok() ==> final(rt).validated@.is_some(),
+        r.is_ok() ==> final(rt).tx_log@.len() == 1 && ({
+            let st0 = rt_state::<State>(old(rt).state_id@);
+            let st1 = rt_state::<State>(final(rt).tx_log@[0]);
+            let i0 = info_of(st0)->Some_0;
+            let s = final(rt).sends@;
+            let amount = r->Ok_0.amount_withdrawn@;
+            let fee = st0.fee_debt@;
+            let vested = vf_sum_before(st0.vesting_funds@, old(rt).epoch as int);
+            let k0: int = if amount > 0 { 1 } else { 0 };
+            let k1: int = if fee > 0 { 1 } else { 0 };
+            let k2: int = if vested != 0 { 1 } else { 0 };
+            &&& info_of(st0).is_some()
+            &&& (old(rt).msg.caller == i0.owner || old(rt).msg.caller == i0.beneficiary)
+            &&& params.amount_requested@ >= 0
+            &&& amount == wd_amount(State { locked_funds: st1.locked_funds, ..st0 }, old(rt).balance@, params.amount_requested@, i0, old(rt).epoch as int)
+            &&& amount >= 0 && st1.fee_debt@ == 0 && st1.locked_funds@ == st0.locked_funds@ - vested
+            // exactly these messages leave the actor, in this order: pay the beneficiary, burn the repaid debt, tell the power actor what vested
+            &&& s.len() == k0 + k1 + k2
+            // "only to the beneficiary"
+            &&& (amount > 0 ==> s[0].to == i0.beneficiary && s[0].method == METHOD_SEND && s[0].value == amount && s[0].ok)
+            &&& (fee > 0 ==> is_burn(s[k0]) && s[k0].value == fee && s[k0].ok)
+            &&& (vested != 0 ==> is_pledge_note(s[k0 + k1]) && s[k0 + k1].value == 0 && s[k0 + k1].ok
+                    && exists|d: TokenAmount| s[k0 + k1].params == Some(IpldBlock { h: #[trigger] cbor_hash(d) }) && d@ == -vested)
+        }),
+//@ end
+
 } // verus!
 fn main() {}
